@@ -9,7 +9,10 @@ package main
 import (
 	"fmt"
 	"math"
+	"os"
+	"sort"
 	"strconv"
+	"strings"
 
 	"ddpmc/internal/batch"
 	. "ddpmc/internal/cdm"
@@ -293,15 +296,29 @@ func genC06(tier string) []*batch.Case {
 				if !h.t.Under().Eq(to.t.Under()) && h.t.Def != "" && to.t.Def != "" {
 					continue // two definitions of different underlying types: nothing new over def×primitive
 				}
-				for _, form := range []string{"var", "temp"} {
+				// how the value gets into the Variable: explicit conversion kept in a variable / used as a
+				// temporary, implicit conversion at initialisation, at assignment, at return
+				for _, form := range []string{"var", "temp", "init", "assign", "ret"} {
 					cnt++
 					pfx := fmt.Sprintf("c%d", cnt)
 					var body []Stmt
+					var funcs []*Func
 					var src Expr = &Cast{X: mkv(h), T: Any}
-					if form == "var" {
-						a := vr(pfx+"_a", Any)
+					a := vr(pfx+"_a", Any)
+					switch form {
+					case "var":
 						body = one(&VarDecl{Name: a.Name, T: Any, Init: src})
 						src = a
+					case "init":
+						body = one(&VarDecl{Name: a.Name, T: Any, Init: mkv(h)})
+						src = a
+					case "assign":
+						body = seq(one(&VarDecl{Name: a.Name, T: Any, Init: &Cast{X: zl(0), T: Any}}), one(&Assign{Target: a, Val: mkv(h)}))
+						src = a
+					case "ret":
+						f := &Func{Name: pfx + "_alsvar", Params: []Param{{Name: "p", T: h.t}}, Ret: Any, Body: one(&Return{X: vr("p", h.t)})}
+						funcs = []*Func{f}
+						src = &Call{F: f, Args: []Expr{mkv(h)}}
 					}
 					if h.t.Eq(to.t) {
 						var back Expr = &Cast{X: src, T: to.t}
@@ -313,7 +330,7 @@ func genC06(tier string) []*batch.Case {
 						body = seq(one(prs("start\n")), body, one(&VarDecl{Name: pfx + "_r", T: to.t, Init: &Cast{X: src, T: to.t}}), one(prs("nicht erreichbar\n")))
 					}
 					out = append(out, &batch.Case{Key: "any-cast-def:" + h.t.String() + "->" + to.t.String() + ":" + form, Desc: "Variable holding " + h.t.String() + " converted to " + to.t.String(),
-						Aliases: defs, Body: body})
+						Aliases: defs, Funcs: funcs, Body: body})
 				}
 			}
 		}
@@ -338,6 +355,18 @@ func runC06(tier string) int {
 		levels = []uint{0, 1, 2}
 	}
 	cases := genC06(tier)
+	// static programs (Variable conversions, '...') first: they are cheap, the argv-driven forms take the time
+	sort.SliceStable(cases, func(i, j int) bool { return cases[i].ArgSets == nil && cases[j].ArgSets != nil })
+	if flt := os.Getenv("VERIF_ONLY"); flt != "" { // development aid (the run is then reported as capped)
+		var sel []*batch.Case
+		for _, cs := range cases {
+			if strings.Contains(cs.Key, flt) {
+				sel = append(sel, cs)
+			}
+		}
+		cases = sel
+		c.Capped("VERIF_ONLY=" + flt)
+	}
 	st := batch.Run(c, cases, batch.Opts{Prop: "C06", Family: "access", Levels: levels, BatchSize: 30})
 	c.Set("stats", st)
 	nontriv := 0
@@ -348,8 +377,15 @@ func runC06(tier string) int {
 			nontriv++
 		}
 	}
-	c.Sample(map[string]any{"case": cases[0].Desc, "key": cases[0].Key, "arg_vectors": cases[0].ArgSets[:6], "source": (&Program{Main: cases[0].Body, UsesArgs: true}).Source()})
-	c.Sample(map[string]any{"case": cases[len(cases)-1].Desc, "key": cases[len(cases)-1].Key})
+	for _, cs := range cases {
+		if len(cs.ArgSets) >= 6 {
+			c.Sample(map[string]any{"case": cs.Desc, "key": cs.Key, "arg_vectors": cs.ArgSets[:6], "source": (&Program{Main: cs.Body, UsesArgs: true}).Source()})
+			break
+		}
+	}
+	if len(cases) > 0 {
+		c.Sample(map[string]any{"case": cases[0].Desc, "key": cases[0].Key})
+	}
 	c.Set("evaluations", st.Cases)
 	c.Set("states", st.Cases-st.Unspecified)
 	c.Set("transitions", st.Runs)
